@@ -1,0 +1,99 @@
+//go:build verif
+
+/*
+ * Licensed to the Apache Software Foundation (ASF) under one or more
+ * contributor license agreements.  See the NOTICE file distributed with
+ * this work for additional information regarding copyright ownership.
+ * The ASF licenses this file to You under the Apache License, Version 2.0
+ * (the "License"); you may not use this file except in compliance with
+ * the License.  You may obtain a copy of the License at
+ *
+ *     http://www.apache.org/licenses/LICENSE-2.0
+ *
+ * Unless required by applicable law or agreed to in writing, software
+ * distributed under the License is distributed on an "AS IS" BASIS,
+ * WITHOUT WARRANTIES OR CONDITIONS OF ANY KIND, either express or implied.
+ * See the License for the specific language governing permissions and
+ * limitations under the License.
+ */
+
+package tcc
+
+
+// Verification contracts (comment-only, tag verif) for property C05: a TCC prepare registers its
+// branch before the user's try runs; phase two dispatches to the registered action faithfully.
+// Abstract (trusted): everything that works by reflection over the user's parameter struct or by
+// JSON (the tagged-parameter map, finding an embedded BusinessActionContext, Marshal / Unmarshal).
+
+//@ func (*TCCServiceProxy).getActionContextParameters
+//@   trusted
+//@   ensures result != nil
+//@ func (*TCCServiceProxy).getOrCreateBusinessActionContext
+//@   trusted
+//@   ensures result != nil
+//@ ext encoding/json.Marshal
+//@   ensures true
+//@ ext github.com/dubbogo/gost/net.GetLocalIP
+//@   ensures true
+//@ func (*TCCResourceManager).getBusinessActionContext
+//@   trusted
+//@   may_panic
+//@   ensures result != nil && result.Xid == xid && result.BranchId == branchID && result.ActionName == resourceID
+
+//@ func (*TCCServiceProxy).registeBranch
+//@   prop C05
+//@   requires t != nil && t.TCCResource != nil && t.TCCResource.TwoPhaseAction != nil && ctx != nil
+//@   let cv := ctxvalue(ctx, tm.seataContextVariable)
+//@   requires cv != nil ==> isT(cv, *tm.ContextVariable) && cv.(*tm.ContextVariable) != nil
+//@   let global := cv != nil && cv.(*tm.ContextVariable).Xid != ""
+//@   modifies cv.(*tm.ContextVariable).BusinessActionContext, ghost.begin_sends, ghost.commit_sends, ghost.rollback_sends, ghost.other_sends, ghost.commit_acked, ghost.rollback_acked, ghost.last_send_failed, ghost.commit_xid, ghost.rollback_xid, ghost.begin_xid
+//@   ensures outside-a-global-tx: !global ==> result != nil && ghost.other_sends == old(ghost.other_sends)
+//@   ensures exactly-one-registration: global ==> called("BranchRegister#1") && !called("BranchRegister#2")
+//@   ensures refusal-surfaces: global && called("BranchRegister#1") && callres("BranchRegister#1", 1) != nil ==> result != nil
+//@   ensures branch-id-kept: global && result == nil && called("BranchRegister#1") ==> cv.(*tm.ContextVariable).BusinessActionContext != nil && cv.(*tm.ContextVariable).BusinessActionContext.BranchId == callres("BranchRegister#1", 0) && cv.(*tm.ContextVariable).BusinessActionContext.Xid == cv.(*tm.ContextVariable).Xid && cv.(*tm.ContextVariable).BusinessActionContext.ActionName == t.TCCResource.TwoPhaseAction.actionName
+//@   at call BranchRegister#1: assert tcc-branch-of-this-action: arg_param.BranchType == branch.BranchTypeTCC && arg_param.ResourceId == t.TCCResource.TwoPhaseAction.actionName && arg_param.Xid == cv.(*tm.ContextVariable).Xid && arg_param.LockKeys == "" && called("Marshal#1") && arg_param.ApplicationData == string(callres("Marshal#1", 0))
+//@   range 1 invariant true
+
+//@ func (*TCCServiceProxy).Prepare
+//@   prop C05
+//@   requires t != nil && t.TCCResource != nil && t.TCCResource.TwoPhaseAction != nil && ctx != nil
+//@   let cv := ctxvalue(ctx, tm.seataContextVariable)
+//@   requires cv != nil && isT(cv, *tm.ContextVariable) && cv.(*tm.ContextVariable) != nil
+//@   let global := cv.(*tm.ContextVariable).Xid != ""
+//@   requires ghost.user_prepares == 0
+//@   modifies heap.all, ghost.all
+//@   ensures try-at-most-once: ghost.user_prepares <= 1
+//@   ensures registration-failure-skips-try: global && called("registeBranch#1") && callres("registeBranch#1", 0) != nil ==> ghost.user_prepares == 0 && result1 != nil
+//@   ensures registered-once-in-a-global-tx: global ==> called("registeBranch#1") && !called("registeBranch#2")
+//@   ensures no-registration-outside: !global ==> !called("registeBranch#1") && ghost.user_prepares == 1
+//@   at call Prepare#1: assert registered-before-try: (global ==> called("registeBranch#1") && callres("registeBranch#1", 0) == nil) && arg_params == params && cv.(*tm.ContextVariable).FencePhase == enum.FencePhasePrepare && arg_self == t.TCCResource.TwoPhaseAction
+
+//@ func (*TCCResourceManager).BranchCommit
+//@   prop C05
+//@   requires t != nil
+//@   let r := syncmap(t, "resourceManagerMap")[box(branchResource.ResourceId, string)]
+//@   let known := haskey(syncmap(t, "resourceManagerMap"), box(branchResource.ResourceId, string))
+//@   requires known ==> isT(r, *TCCResource) && r.(*TCCResource) != nil && r.(*TCCResource).TwoPhaseAction != nil
+//@   requires ghost.user_commits == 0 && ghost.user_rollbacks == 0
+//@   modifies heap.all, ghost.all
+//@   ensures unknown-resource-runs-nothing: !known ==> result1 != nil && ghost.user_commits == 0 && ghost.user_rollbacks == 0 && result0 != branch.BranchStatusPhasetwoCommitted
+//@   ensures commit-exactly-once: known ==> ghost.user_commits == 1 && ghost.user_rollbacks == 0
+//@   ensures committed-iff-no-error: known && called("Commit#1") ==> (result0 == branch.BranchStatusPhasetwoCommitted) == (callres("Commit#1", 1) == nil) && result1 == callres("Commit#1", 1)
+//@   ensures failure-is-retryable: known && called("Commit#1") && callres("Commit#1", 1) != nil ==> result0 == branch.BranchStatusPhasetwoCommitFailedRetryable
+//@   at call Commit#1: assert dispatch-is-faithful: arg_self == r.(*TCCResource).TwoPhaseAction && arg_businessActionContext != nil && arg_businessActionContext.Xid == branchResource.Xid && arg_businessActionContext.BranchId == branchResource.BranchId && arg_businessActionContext.ActionName == branchResource.ResourceId && arg_businessActionContext == callres("getBusinessActionContext#1", 0) && callarg("getBusinessActionContext#1", 4) == branchResource.ApplicationData
+//@   at call Commit#1: assert context-for-the-fence: ctxvalue(arg_ctx, tm.seataContextVariable) != nil && ctxvalue(arg_ctx, tm.seataContextVariable).(*tm.ContextVariable).Xid == branchResource.Xid && ctxvalue(arg_ctx, tm.seataContextVariable).(*tm.ContextVariable).FencePhase == enum.FencePhaseCommit && ctxvalue(arg_ctx, tm.seataContextVariable).(*tm.ContextVariable).BusinessActionContext == arg_businessActionContext
+
+//@ func (*TCCResourceManager).BranchRollback
+//@   prop C05
+//@   requires t != nil
+//@   let r := syncmap(t, "resourceManagerMap")[box(branchResource.ResourceId, string)]
+//@   let known := haskey(syncmap(t, "resourceManagerMap"), box(branchResource.ResourceId, string))
+//@   requires known ==> isT(r, *TCCResource) && r.(*TCCResource) != nil && r.(*TCCResource).TwoPhaseAction != nil
+//@   requires ghost.user_commits == 0 && ghost.user_rollbacks == 0
+//@   modifies heap.all, ghost.all
+//@   ensures unknown-resource-runs-nothing: !known ==> result1 != nil && ghost.user_commits == 0 && ghost.user_rollbacks == 0 && result0 != branch.BranchStatusPhasetwoRollbacked
+//@   ensures rollback-exactly-once: known ==> ghost.user_rollbacks == 1 && ghost.user_commits == 0
+//@   ensures rollbacked-iff-no-error: known && called("Rollback#1") ==> (result0 == branch.BranchStatusPhasetwoRollbacked) == (callres("Rollback#1", 1) == nil) && result1 == callres("Rollback#1", 1)
+//@   ensures failure-is-retryable: known && called("Rollback#1") && callres("Rollback#1", 1) != nil ==> result0 == branch.BranchStatusPhasetwoRollbackFailedRetryable
+//@   at call Rollback#1: assert dispatch-is-faithful: arg_self == r.(*TCCResource).TwoPhaseAction && arg_businessActionContext != nil && arg_businessActionContext.Xid == branchResource.Xid && arg_businessActionContext.BranchId == branchResource.BranchId && arg_businessActionContext.ActionName == branchResource.ResourceId && arg_businessActionContext == callres("getBusinessActionContext#1", 0) && callarg("getBusinessActionContext#1", 4) == branchResource.ApplicationData
+//@   at call Rollback#1: assert context-for-the-fence: ctxvalue(arg_ctx, tm.seataContextVariable) != nil && ctxvalue(arg_ctx, tm.seataContextVariable).(*tm.ContextVariable).Xid == branchResource.Xid && ctxvalue(arg_ctx, tm.seataContextVariable).(*tm.ContextVariable).FencePhase == enum.FencePhaseRollback && ctxvalue(arg_ctx, tm.seataContextVariable).(*tm.ContextVariable).BusinessActionContext == arg_businessActionContext
